@@ -241,7 +241,7 @@ def _expr(draw, model, env, depth):
     if depth <= 0:
         n, t = draw(st.sampled_from(env))
         return ["var", n], t
-    c = draw(st.integers(0, 13))
+    c = draw(st.integers(0, 15))
     if c <= 5:  # method call chain step
         obj, t = draw(_expr(model, env, depth - 1))
         ms = all_methods(model, t)
@@ -323,13 +323,23 @@ def _expr(draw, model, env, depth):
             if later_m:
                 mm, rr = draw(st.sampled_from(later_m))
                 return ["fld", ["dict", [["k0", first], ["k1", ["call", ["var", n], mm]]]], "k1", draw(st.sampled_from(["attr", "key"]))], rr
-    if c == 13 and depth >= 1:
+    if c >= 13 and depth >= 1:
         # a lambda called where it is written (the keyword-only parameter keeps it from being substituted): its parameter has the
         # type of the argument, the call the type of the body
         arg, at = draw(_expr(model, env, depth - 1))
         if at[0] != "rec":
             p = draw(st.sampled_from(["a", "b", "e", "w"]))
-            body, bt = draw(_expr(model, [(nn, tt) for nn, tt in env if nn != p] + [(p, at)], depth - 1))
+            env_p = [(nn, tt) for nn, tt in env if nn != p] + [(p, at)]
+            src, st_ = draw(_expr(model, env_p, depth - 1))
+            if elem_of(st_) is not None and draw(st.booleans()):
+                # ... and its parameter is used one lambda further down (inside the lambda of a collection operator in its body)
+                q = draw(st.sampled_from([x for x in ["j", "t", "q"] if x != p]))
+                ms = [(m, r) for m, r in all_methods(model, at) if r is not None and r[0] != "rec"]
+                if ms and draw(st.booleans()):
+                    m, r = draw(st.sampled_from(ms))
+                    return ["calledl", p, arg, ["sel", src, q, ["call", ["var", p], m]]], ["it", r]
+                return ["calledl", p, arg, ["sel", src, q, ["var", p]]], ["it", at]
+            body, bt = draw(_expr(model, env_p, depth - 1))
             if bt[0] != "rec":
                 return ["calledl", p, arg, body], bt
     n, t = draw(st.sampled_from(env))
